@@ -164,7 +164,7 @@ def judge_fuse(ctx, x, groups, res, wit, tag):
             bad("fuse-slice-shape", f"block {sec}: slice shape {got.shape} != {moved.shape}")
             return False
         same = np.array_equal(got, moved)
-        if same and not ferm and np.ascontiguousarray(got).tobytes() != np.ascontiguousarray(moved).tobytes():
+        if same and not ferm and np.ascontiguousarray(got).tobytes() != np.ascontiguousarray(np.asarray(moved).astype(np.result_type(got, moved))).astype(np.asarray(got).dtype).tobytes():
             bad("fuse-not-bit-exact", f"block {sec} -> sector {new_sec}: equal as numbers but not bit for bit (sign of a zero changed)")
             return False
         if not same and ferm and np.array_equal(got, -moved):
@@ -249,7 +249,7 @@ def _same_as_original(ctx, x, y, wit, tag):
         if not np.array_equal(np.asarray(b) * px.get(sec, 1), np.asarray(y.blocks[sec]) * py.get(sec, 1)):
             ctx.violation("roundtrip-value", f"{tag}: block {sec} not restored bit for bit", wit)
             return
-        if not is_fermionic(x) and np.ascontiguousarray(np.asarray(b)).tobytes() != np.ascontiguousarray(np.asarray(y.blocks[sec])).tobytes():
+        if not is_fermionic(x) and np.ascontiguousarray(np.asarray(b).astype(np.result_type(np.asarray(b), np.asarray(y.blocks[sec])))).tobytes() != np.ascontiguousarray(np.asarray(y.blocks[sec])).tobytes():
             ctx.violation("roundtrip-not-bit-exact", f"{tag}: block {sec} restored as equal numbers but not bit for bit (sign of a zero changed)", wit)
             return
     for sec, b in y.blocks.items():
@@ -264,7 +264,13 @@ def same_result(r1, r2):
     s1, s2 = snapshot(r1), snapshot(r2)
     if s1[:5] != s2[:5] or s1[6:] != s2[6:]:
         return False
-    return dict(s1[5]) == dict(s2[5])
+    if dict(s1[5]) == dict(s2[5]):
+        return True
+    if len({str(np.asarray(b).dtype) for b in r1.blocks.values()} | {str(np.asarray(b).dtype) for b in r2.blocks.values()}) > 1:
+        # operand with blocks of several element types: insert allocates every fused block in
+        # the common type, concat promotes block by block - same numbers, compared as such
+        return set(r1.blocks) == set(r2.blocks) and all(np.asarray(b).shape == np.asarray(r2.blocks[k]).shape and np.array_equal(np.asarray(b), np.asarray(r2.blocks[k])) for k, b in r1.blocks.items())
+    return False
 
 
 def one_fuse(ctx, hooks, rng, x, groups, feature):
@@ -358,6 +364,9 @@ def case_structure(ctx, hooks, rng):
         keep = list(keep)
         rng.shuffle(keep)
         blocks = {s: vals(tuple(ix.chargemap[c] for ix, c in zip(idx, s))) for s in keep}
+        mixed = vals.mode == "unique" and len(blocks) >= 2 and rng.random() < 0.15
+        if mixed:
+            blocks, dts_ = gen.mix_block_dtypes(rng, blocks)
         kw = dict(indices=tuple(idx), charge=charge, blocks=blocks, **extra)
         if ferm and R.par(sym, charge):
             kw["oddpos"] = 7
@@ -366,6 +375,8 @@ def case_structure(ctx, hooks, rng):
             gen.add_phases(rng, x, rng.choice([0, 1, 2]))
         for groups in gsets:
             feat = list(feature)
+            if mixed:
+                feat.append(f"mixed-dtype-blocks-{len(dts_)}")
             if any(len(g) == 1 for g in groups):
                 feat.append("single-axis-group")
             if any(list(g) != sorted(g) for g in groups):
